@@ -1137,6 +1137,17 @@ func narrowingLenPrefix(src *Val) (*Val, bool) {
 	if !in.Contains(func(x *Val) bool { return x.Op == "len" }) {
 		return nil, false
 	}
+	// a length (or an affine expression of lengths), not something that merely mentions a length somewhere inside
+	// (a checksum computed over buf.Bytes()[s:len(…)] is not a length)
+	if aff := affOf(stripIntConv(in)); aff.Top {
+		return nil, false
+	} else {
+		for k := range aff.Term {
+			if op := aff.Sym[k].Op; op != "len" && op != "cap" {
+				return nil, false
+			}
+		}
+	}
 	if wideningInt(in.Type, src.Type) {
 		return nil, false
 	}
